@@ -138,4 +138,6 @@ class SetFieldTransformation(PreprocessingTransformation):
 
     def apply(self, rule: SigmaRule | SigmaCorrelationRule) -> None:
         super().apply(rule)
-        rule.fields = self.fields
+        # The rule gets its own list: later add_field/remove_field transformations change the rule's
+        # list in place and must not change the configuration of this transformation.
+        rule.fields = list(self.fields)
